@@ -26,6 +26,11 @@ def norm_name(s):
 
 
 def inner(n):
+    if n.get('kind') == 'InitListExpr' and not n.get('inner') and n.get('array_filler'):
+        # clang prints a brace list that is shorter than its array as array_filler = [filler, explicit initialisers...]
+        # (no 'inner'); the explicit initialisers come first in the array and the rest is value-initialised, which is what a
+        # C brace list with the same explicit values means
+        return [c for c in n['array_filler'][1:] if isinstance(c, dict) and c]
     return [c for c in (n.get('inner') or []) if isinstance(c, dict) and c]
 
 
